@@ -170,6 +170,17 @@ CHECKS["C16"] = dict(
     design="§3 C16",
 )
 
+CHECKS["C19"] = dict(
+    category="exploration",
+    text="ALL 122 set partitions of a 6-definition schema (interface, enum, input with defaults of several kinds, two objects, Query+Mutation) into <= 3 files, every block placed in root / sub-directory / nested sub-directory "
+         "with the three extensions (one rotation per partition quick, all three thorough), the single-file source and the introspection source served in-process by graphql-core, for two operation sets; per-class comparison of "
+         "result models, enums, fragments, method signatures, operation strings, and input fields' required/default; 15 classes of introspection failure must surface as IntrospectionError; 9 header x TLS-flag combinations "
+         "checked against the recorded httpx.post call.",
+    note="Trusted: graphql-core introspection execution as the remote server; httpx.post is replaced as seen from ariadne_codegen.schema (TLS itself not exercised).",
+    technique="exhaustive enumeration of all set partitions of the schema definitions into files + all introspection answer classes, differential comparison per class against the single-file source",
+    design="§3 C19",
+)
+
 PENDING_REASON = "check not built yet in this round (work in progress, see DESIGN.md §6)"
 NOT_APPLICABLE = {}
 
